@@ -154,8 +154,20 @@ def fm_classify(case, reason, line):
     return r
 
 
+def _validate_batched(module, cfg, lines, nproc, batch):
+    """validate in batches so that one JVM never deserialises more than a few MB of trace"""
+    tot = {"states": 0, "transitions": 0, "bad": [], "runs": []}
+    for i in range(0, len(lines), batch):
+        r = vlib.validate_traces(module, cfg, lines[i:i + batch], nproc=nproc, timeout=900, heap="3g")
+        tot["states"] += r["states"]
+        tot["transitions"] += r["transitions"]
+        tot["bad"] += r["bad"]
+        tot["runs"] += r["runs"]
+    return tot
+
+
 def fm_validate(lines, nproc=4):
-    return vlib.validate_traces("FieldMapObs", "FieldMapObs.cfg", lines, nproc=nproc, timeout=900, heap="3g")
+    return _validate_batched("FieldMapObs", "FieldMapObs.cfg", lines, nproc, 6000)
 
 
 def c15(tier, repo=None):
@@ -305,7 +317,7 @@ def pg_family(name, timeout=900, **kw):
 
 
 def pg_validate(lines, nproc=4):
-    return vlib.validate_traces("ParadigmObs", "ParadigmObs.cfg", lines, nproc=nproc, timeout=900, heap="3g")
+    return _validate_batched("ParadigmObs", "ParadigmObs.cfg", lines, nproc, 20000)
 
 
 def pg_classify(case, reason, line):
@@ -477,6 +489,30 @@ def selftest():
     log(json.dumps(out, indent=1))
     ok = all(v["clean_lines_rejected"] == 0 and v["corrupted_field"] for v in out.values()) and out["C15"]["dropped_run"] and out["C04"]["dropped_chunk"]
     return 0 if ok else 2
+
+
+# ================================================================================================ replay of a recorded violation
+
+def _replay_one(prop, path, test, overlay, validate, classify):
+    d = json.load(open(path))
+    case = d["case"]["case"]
+    lines, _ = _replay(test, overlay, [case], "replay of " + path)
+    res = validate(lines, nproc=1)
+    verdict = vlib.Verdict(prop)
+    line = json.loads(lines[0])
+    for b in res["bad"]:
+        if "NOTE:" in str(b[2]):
+            raise Inconclusive("replay hit a machinery note: %s" % (b[2],))
+        verdict.violation(classify(case, b[2], line), {"case": case, "observation": line}, b[2])
+    code, n_new, n_known = verdict.finish()
+    log("[%s] replay of %s: %s" % (prop, path, "rejected again" if res["bad"] else "accepted (not reproduced)"))
+    return code
+
+
+REPLAY = {
+    "C04": lambda path: _replay_one("C04", path, "TestVerifParadigm", PG_OVERLAY, pg_validate, pg_classify),
+    "C15": lambda path: _replay_one("C15", path, "TestVerifFieldMap", FM_OVERLAY, fm_validate, fm_classify),
+}
 
 
 if __name__ == "__main__":
